@@ -507,6 +507,18 @@ func (c cfgT) specVhost(hostVal string) (vh int, best cand, ok bool) {
 	return best.vh, best, true
 }
 
+// defaultVhost: the virtual host that has the default domain ("*" or "*:*"), -1 if none
+func (c cfgT) defaultVhost() int {
+	for i, v := range c {
+		for _, d := range v.Domains {
+			if dh, dp, ok := hostPort(asciiLower(d)); ok && dh == "*" && (dp == "" || dp == "*") {
+				return i
+			}
+		}
+	}
+	return -1
+}
+
 func (h hmT) holds(q reqT) bool {
 	v, ok := q.Hdr[h.Name]
 	if !ok {
